@@ -17,13 +17,13 @@ EV = ("after the call, at the arbitrary instant q: a '+' of the pair is stored i
       "at q are untouched")
 step.register_matrix(
     REG, "ev", "ev", EV,
-    quick=lambda key, n, L, by: L == 2 and (n <= 1 or (n == 2 and key in ("u_swap", "d_same"))),
+    quick=lambda key, n, L, by: L == 2 and (n == 0 or (n == 1 and key in ("u_swap", "d_same", "u_loop", "u_same_by"))),
     split=lambda key, n, L, by: n >= 1,
     tags=lambda n: ["accepted", "q_new"] + (["append", "extend", "contained"] if n else []))
 step.register_matrix(
     REG, "ev", "close",
     "strong closure: as ev_*, and every run longer than ONE instant is closed by a '-' at end+1 after the call",
-    quick=lambda key, n, L, by: n == 1,
+    quick=lambda key, n, L, by: n == 1 and key in ("u_swap", "d_same"),
     split=lambda key, n, L, by: True,
     tags=lambda n: ["accepted", "extend"], ns=(1, 2), Ls=(2,),
     keys=("u_same", "u_swap", "u_loop", "d_same", "d_loop"),
